@@ -96,6 +96,12 @@ def run_check(pid, tier, opts):
         sys.stderr.write('mcheck: cannot load check for %s: %s\n' % (pid, e))
         traceback.print_exc()
         return 2
+    import tempfile
+    import shutil
+    import atexit
+    run_tmp = tempfile.mkdtemp(prefix='mc_run_')       # scratch space for checks that write real files (C16); removed below
+    os.environ['MC_RUN_TMP'] = run_tmp
+    atexit.register(shutil.rmtree, run_tmp, True)
     spec = mod.build(tier, seed)
     cases = spec['cases']
     n = len(cases)
@@ -137,6 +143,7 @@ def run_check(pid, tier, opts):
         if pool is not None:
             pool.terminate()
             pool.join()
+        shutil.rmtree(run_tmp, ignore_errors=True)
 
     # --- known findings -------------------------------------------------------------
     known, fixed = findings.load(pid)
